@@ -17,4 +17,14 @@ PROPS = {
         "assumptions": ["theorems hold for every structurally well-formed lookup table; that the table built with f64 arithmetic equals the one built exactly is checked at run time by the driver, not proved",
                         "accuracy in [0,1] and max_den <= 64 (the documented preconditions; callers are checked under C03/C16)"],
     },
+    "C16": {
+        "gen": [{"script": "gen_units_file.py"}],
+        "trusted_base": COMMON_TB + [FLOAT_TB,
+            "translators/gen_units_file.py (units.toml -> Lean value with tomllib; SI prefix ratios, FractionsConfig defaults and clamps scraped from src/convert)",
+            "modelled, not verified: toml/serde deserialisation of units files (the harness sends the deserialised UnitsFile value), build.rs' quote/prettyplease code generation (tied by comparing Converter::bundled() with the model built from the generated units.toml value), hashbrown iteration order (sent to the model as it is), slice::sort_by (a stable sort on a total order), enum_map!, Arc, format!",
+            "the harness reads the thresholds, the index and the fraction settings of a Converter from its derived Debug rendering (they are not reachable through the public API)"],
+        "assumptions": ["a build is: a new ConverterBuilder, add_units_file for each layer in order, the first error ends the build, then finish",
+                        "ratios, differences and accuracies are finite and ratios positive (the property's premise); outside it the model is still compared with the code but the oracle does not judge",
+                        "ordering clauses (best lists in non-decreasing ratio order) are proved over exact rationals"],
+    },
 }
